@@ -6,6 +6,7 @@ mod kinds;
 mod serde_mode;
 mod seq_mode;
 mod prog;
+mod race;
 mod rng;
 mod sched;
 mod varc;
